@@ -17,6 +17,36 @@ CLAIMED["C20"] = dict(
    note="Trusted: TLC, CPython's parser and eval as the meaning of 'what Python means' (spec/CPython disagreement is a machinery failure). numpy-scalar semantics are compared only where CPython gives the same answer for np.int32 and int operands.",
    technique="TLA+ reference interpreter + TLC enumeration/simulation replayed into Expression, three-way with CPython; TLC trace validation of the expression life cycle",
    engine="PqExpr")
+CLAIMED["C03"] = dict(
+   category="model_checking", design_ref="§3 C03",
+   text="PqEngine.tla is a state machine of Simulator.execute_instructions (one action per critical section); TLC checks ShotsConserved / NoneWeightsSumToOne / OutcomeLenMonotone exhaustively over all adaptive programs with <=3 instructions on 2 modes, shots 1..3(4) and None and every split of shots among outcomes (~9e5 states). Random behaviours are exported and replayed into PureFockSimulator with the sampler forced to the behaviour's outcome counts (final branches, len(samples), sum(counts) must match), and every execution -- forced replays, natural adaptive programs on all six simulators, and in the thorough tier the repository's own measurement tests -- is recorded event by event and validated by TLC against PqEngineTrace.tla (exact Fraction k/N frequencies, chain rule, normalised projective branch states with shots=None, Result accounting).",
+   note="Trusted: TLC, the recorder's patch points. Physics of branch states is compared exactly in the C01/C05 replays; here weights are fixed-point 1e-4 with tolerance.",
+   technique="TLA+ state machine of the execution engine + TLC exhaustive + forced-outcome replay + TLC trace validation of recorded executions",
+   engine="PqEngine")
+CLAIMED["C04"] = dict(
+   category="model_checking", design_ref="§3 C04",
+   text="MatrixFunctions.tla states the combinatorial definitions (permanent with multiplicities, Laplace vector, hafnian, loop hafnian with reduction, Pfaffian, torontonian as (sign, det) lists) over Gaussian integers; GrayPermanent.tla is a line-by-line state machine of permanent_cpp + n_aryGrayCodeCounter whose invariants (reflected Gray code, binomial product, cover-exactly-once for every job partition K=0..6(16), result = 2^(N-1) PermDef, int range) are checked by TLC per instance; BigNat.tla gives closed forms for multiplicities up to 40 and the int64 range theorem. Replay: the C++ rebuilt from /repo/src (float/double, every forced hardware_concurrency), the real Gray-code class stepped along TLC's behaviour, prebuilt Python entry points, numba hafnians, connector functions; the permanent corpus also runs under an ASan+UBSan build (any report is a violation).",
+   note="The pybind11 glue cannot be rebuilt (no pybind11): prebuilt .so entry points are exercised as they are; accuracy for large generic complex matrices is out of reach.",
+   technique="TLA+ definitions + state machine of the Gray-code permanent checked by TLC; exact values replayed into rebuilt C++ and Python kernels; sanitizers",
+   engine="GrayPermanent")
+CLAIMED["C11"] = dict(
+   category="model_checking", design_ref="§3 C11",
+   text="PqRng.tla models ownership of random streams (process-global generator re-seeded by every Config, Config.rng shared with copies, per-shot default_rng(seed+idx)); TLC checks Reproducible / NoDrawUsedTwice / OwnStreamsOnly over every interleaving of foreign activity with two create/execute runs, and shows at model level that a sampler drawing from the global stream violates them. Binding: the stream each of 12 sampling families really consumes is observed (random.*, Config.rng proxy, default_rng) and must be an owned one; every exported interleaving is replayed on the real objects (equal samples for equal seeds, different seeds differ, dask on/off equal). GrayPermanent: CoverExactlyOnce / ResultIsPermanent for hardware_concurrency 0..16 replayed through the rebuilt C++; deterministic quantities compared across NUMBA/OMP thread counts in fresh processes.",
+   note="numpy/python generators trusted to be deterministic functions of (seed, position).",
+   technique="TLA+ model of RNG stream ownership + TLC over interleavings, replayed on real simulators; job-partition state machine for the native permanent",
+   engine="PqRng")
+CLAIMED["C12"] = dict(
+   category="model_checking", design_ref="§3 C12",
+   text="PqEngine.tla states the frame condition (FrameOnEnd) with an exception enabled at every instruction position x stage (condition, resolve, validate, step); TLC checks it exhaustively (MCEngine_frame). Each exported (program, fault point) is replayed on the real engine with the exception injected at exactly that point; instruction modes, params (arrays by bytes), conditions are snapshotted before and compared after, and the recorded trace (its end event carries the frame on return AND on raise) is validated by TLC. Plus natural runs on all simulators, validate/copy/as_code/execute-twice, initial_state and Config snapshots, and byte comparison of every array handed to connector matrix functions and native kernels in C/F/strided/read-only layouts.",
+   note="Config.rng position is shared by design and not part of the frame; str -> Expression with equal source text is not counted as a change.",
+   technique="TLA+ frame condition with fault actions + TLC; fault-injection replay and TLC trace validation; byte snapshots",
+   engine="PqEngine")
+CLAIMED["C13"] = dict(
+   category="model_checking", design_ref="§3 C13",
+   text="PqEngine.tla's validation layer predicts, for every structural rule, that execution fails before any simulation step and with which exception class (RejectBeforeEvolve), and that valid programs end Done on every outcome history (NeverRefuseValid); TLC checks both exhaustively over single-fault mutants (MCEngine_validate). Replay: ~250 single-fault mutations of valid base programs on all six simulators (negative/out-of-range/repeated mode, arity, preparation after gate, unsupported mid-circuit measurement, invalid shots, shots=None unsupported, mismatching initial state, documented parameter errors) must raise a PiquassoException with zero recorded simulation steps, and their traces must be accepted by PqEngineTrace; every instruction in each simulator's documented support list must execute for cutoff 1..3(4); forced outcome histories from the spec must all complete.",
+   note="Documented support = :class: references in simulator docstrings.",
+   technique="TLA+ validation model + TLC over single-fault mutants; replay on all simulators with TLC trace validation",
+   engine="PqEngine")
 NOT_APPLICABLE_REASON = {}
 def main():
     checks = []
